@@ -14,6 +14,7 @@ from harness import checklib  # noqa: E402
 
 
 def run(c):
+    pe.run_design(c, histories=False)
     K = 3 if c.thorough else 2
     cases = []
     nh = 0
